@@ -256,11 +256,14 @@ func VerifC04_ContinuousPool() { c02Continuous(2, 0) }
 
 // VerifC05_PoolShutdown: the trigger-pool scenario under C05: after WaitForCompletion fired, every goroutine of the
 // pool (workers AND the goroutine that drains and records dropped work) has finished - nothing is recorded and no
-// iteration starts afterwards (the conservation equalities are read after completion and hold exactly).
+// iteration starts afterwards (the conservation equalities are read after completion and hold exactly). Deadlock
+// query: no reachable prefix leaves a worker parked forever (lost wake-up), a lock held forever or the completion
+// wait-group stuck: the pool always terminates once triggering stopped.
 //
 //verif:conc
 //verif:unroll 3
 //verif:timeout 300
+//verif:deadlock 1
 //verif:replace (*$M/internal/workers.ActiveScenario).Run c02RunFn
 //verif:replace (*sync.Cond).Wait c02CondWait
 //verif:replace (*$M/internal/workers.ActiveScenario).RecordDroppedIteration c02DroppedFn
